@@ -38,7 +38,36 @@ theorem World.crossPar_ok {W : World} (hW : W.Good) {x y x' y' : Nat} (hx : W.ρ
     · rcases r with r | r
       · exact .inr ⟨a, r.1⟩
       · exact .inr ⟨x, r.2 ▸ hx⟩
-  refine ⟨⟨?_, ?_, fun v hv => hW.scS v (tS v hv), fun v hv => hW.scD v (tD v hv)⟩,
+  have hunb : ∀ a b, (W.crossPar x y x' y').ρ a b →
+      (∀ p ∈ (W.crossPar x y x' y').σS, p.1 ≠ a) ∧ (∀ p ∈ (W.crossPar x y x' y').σD, p.1 ≠ b) := by
+    intro a b r
+    rcases r with r | r
+    · have hb : b ≠ y' := fun e => r.2.2 (hW.inj _ _ _ r.1 (e ▸ hy))
+      constructor
+      · intro p hp
+        simp only [World.crossPar, List.mem_cons] at hp
+        rcases hp with rfl | hp
+        · exact fun e => r.2.1 e.symm
+        · exact (hW.unb a b r.1).1 p hp
+      · intro p hp
+        simp only [World.crossPar, List.mem_cons] at hp
+        rcases hp with rfl | hp
+        · exact fun e => hb e.symm
+        · exact (hW.unb a b r.1).2 p hp
+    · constructor
+      · intro p hp
+        simp only [World.crossPar, List.mem_cons] at hp
+        rw [r.1]
+        rcases hp with rfl | hp
+        · exact hxy
+        · exact (hW.unb y y' hy).1 p hp
+      · intro p hp
+        simp only [World.crossPar, List.mem_cons] at hp
+        rw [r.2]
+        rcases hp with rfl | hp
+        · exact fun e => hxy' e.symm
+        · exact (hW.unb x x' hx).2 p hp
+  refine ⟨⟨?_, ?_, fun v hv => hW.scS v (tS v hv), fun v hv => hW.scD v (tD v hv), hunb⟩,
     ⟨?_, ⟨[(x, .var y)], rfl⟩, ⟨[(y', .var x')], rfl⟩, Nat.le_refl _, Nat.le_refl _,
       fun v hv => .inl (tS v hv), fun v hv => .inl (tD v hv)⟩⟩
   · intro a b b' h h'
